@@ -3,6 +3,7 @@ import NmVerif.Simd.Loop
 import NmVerif.Simd.Enum
 import NmVerif.Simd.Eval
 import NmVerif.Simd.IntLanes
+import NmVerif.Simd.FloatLanes
 /-
   Driver handler of C12: answers the harness protocol of harness/h_c12_*.cpp with the MODEL
   (Simd/Loop.lean, Simd/Enum.lean, Simd/Eval.lean) on integer data.  Requests reach the driver with the
@@ -134,7 +135,49 @@ def handleInt (kind : String) (a : Args) : Option String :=
       | _, _ => none
   | _ => none
 
+/-! ### floating-point lanes at their own precision (`funary`, the precision-sensitive value cases of `unary`)
+
+  `Builtin Float32 Float` with the C library's ceilf / ceil, floorf / floor, sqrtf / sqrt (what `nmtools_builtin_*`
+  expand to) and the hardware conversions; the request carries the operand as bit patterns (decimal), the answer prints
+  bit patterns in hex exactly as harness/h_c12_common.hpp does.  `usef` = outcome of the `if constexpr` on the element
+  type (`selectsF32`: 1 for f32, 0 for f64 in the unchanged tree). -/
+
+def nativeBuiltin : String → Option (Builtin Float32 Float)
+  | "ceil" => some ⟨Float32.ceil, Float.ceil, Float.toFloat32, Float32.toFloat⟩
+  | "floor" => some ⟨Float32.floor, Float.floor, Float.toFloat32, Float32.toFloat⟩
+  | "sqrt" => some ⟨Float32.sqrt, Float.sqrt, Float.toFloat32, Float32.toFloat⟩
+  | _ => none
+
+def hexPad (width n : Nat) : String :=
+  let d := Nat.toDigits 16 n
+  String.ofList (List.replicate (width - d.length) '0' ++ d)
+
+def handleFloat (kind : String) (a : Args) : Option String :=
+  match kind with
+  | "c12.funary" => orBad do
+      let b ← (a.get? "op").bind nativeBuiltin
+      let lanes ← a.nat "lanes"
+      let useF := (← a.nat "usef") != 0
+      let bits ← a.nats "bits"
+      let n := bits.length
+      match a.get? "dtype" with
+      | some "f64" =>
+        let arr : NDA Float := { shape := [n], colMajor := false, data := bits.map (fun v => Float.ofBits v.toUInt64) }
+        match simdEvalUnary lanes (vecExtUnaryD b useF) b.fnD arr (List.replicate n 0) with
+        | some out => pure s!"ok shape={n} val={",".intercalate (out.map (fun v => hexPad 16 v.toBits.toNat))}"
+        | none => pure "ub"
+      | some "f32" =>
+        let arr : NDA Float32 := { shape := [n], colMajor := false, data := bits.map (fun v => Float32.ofBits v.toUInt32) }
+        match simdEvalUnary lanes (vecExtUnaryF b useF) b.fnF arr (List.replicate n 0) with
+        | some out => pure s!"ok shape={n} val={",".intercalate (out.map (fun v => hexPad 8 v.toBits.toNat))}"
+        | none => pure "ub"
+      | _ => none
+  | _ => none
+
 def handle : Handler := fun kind a =>
+  match handleFloat kind a with
+  | some r => some r
+  | none =>
   match handleInt kind a with
   | some r => some r
   | none =>
